@@ -190,6 +190,19 @@ def run(ctx):
                 if typ == 2 and (r[1] != TYPE[db][1] or int(s.c("Q %s id" % r[0])) != IDS[db][sub[0]]):
                     s.fail("raw-zoneid", "TimeZoneData zone id restored as type %s" % r[1])
                 s.c("Q %s print" % r[0])      # any result must be a usable TimeZone
+            # serialised zone ids that the registry does not contain (0, 1, all-ones, ids of zones outside it, random ones):
+            # restoring gives the error zone, exactly as a lookup of that id does
+            absent = [0, 1, 2, 0xFFFFFFFF, 0x80000000, 5381] + [IDS[db][z] for z in rnd.sample([z for z in range(len(NAMES[db])) if z not in sub], 5)] + \
+                     [rnd.randrange(2**32) for _ in range(10)]
+            for aid in absent:
+                if aid in [IDS[db][z] for z in sub]:
+                    continue
+                r = s.c("MTZ %d rawdata 2 %d 0" % (m, aid)).split()
+                r2 = s.c("MTZ %d id %d" % (m, aid)).split()
+                ctx.evaluations += 1
+                nt.add((db, "absent-id", aid if aid < 3 or aid == 0xFFFFFFFF else "other"))
+                if r[1] != "0" or r2[1] != "0":
+                    s.fail("raw-absent-id", "zone id %#x is not in the registry: the saved record restored as type %s and createForZoneId gave type %s, want the error zone (type 0) from both" % (aid, r[1], r2[1]))
         # ---- e. equality over pools with duplicates of every kind ----
         pools = [0]
 
